@@ -97,11 +97,11 @@ type mEdge struct {
 }
 
 type obs struct {
-	Ret  string    `json:"ret"`
-	Ed   [3]interface{}    `json:"ed"` // p, e, d
-	Cd   [3]interface{}    `json:"cd"`
-	Hs   bool      `json:"hs"`
-	Seal []sealEnt `json:"seal"`
+	Ret  string         `json:"ret"`
+	Ed   [3]interface{} `json:"ed"` // p, e, d
+	Cd   [3]interface{} `json:"cd"`
+	Hs   bool           `json:"hs"`
+	Seal []sealEnt      `json:"seal"`
 }
 
 // world: keys, blocks and signatures of one configuration (immutable after construction)
@@ -374,11 +374,10 @@ func roundEdges(n, c int, proposers, endorsers, committers []uint32) {
 			out.Got = &o
 			vio.Emit(out)
 		}
-		key := fmt.Sprintf("%s|%v|%v|%v|%v", ed.A.K, o.Ret, o.Ed, o.Cd, o.Seal)
 		mu.Lock()
 		nDone++
 		if o.Ed[2] == true || o.Cd[2] == true || o.Ret != "ok" {
-			distinct[fmt.Sprintf("%v|%v|%v|%v", ed.A, len(ed.H), key, ed.H)] = true
+			distinct[fmt.Sprintf("%v|%v|%v|%v|%v", ed.A, o.Ret, o.Ed, o.Cd, o.Seal)] = true
 		}
 		mu.Unlock()
 	})
